@@ -1117,7 +1117,7 @@ func (P) Generate(g0 *core.Gen) {
 		}
 		g.Case("orphan-double-spends", len(s.defs) >= 3, s.line())
 	}
-	for i := 0; i < g.N(400, 6000); i++ {
+	for i := 0; i < g.N(350, 6000); i++ {
 		r := g.R.Fork()
 		s := newSim(r, randomPolicy(r), int(r.Pick(1, 2, 2, 3)))
 		s.scenario(int(r.Pick(8, 15, 25, 40)), false)
@@ -1133,7 +1133,7 @@ func (P) Generate(g0 *core.Gen) {
 			nt       bool
 			ok       bool
 		}
-		cands := make([]cand, g.N(64, 900))
+		cands := make([]cand, g.N(48, 900))
 		for k := range cands {
 			r := g.R.Fork()
 			pol := randomPolicy(r)
@@ -1187,7 +1187,7 @@ func (P) Generate(g0 *core.Gen) {
 		wg.Wait()
 		made := 0
 		for _, c := range cands {
-			if c.ok && made < g.N(40, 600) {
+			if c.ok && made < g.N(30, 600) {
 				g.Case("concurrent", c.nt, c.par)
 				made++
 			}
@@ -1200,7 +1200,7 @@ func (P) Generate(g0 *core.Gen) {
 			nt       bool
 			ok       bool
 		}
-		cands := make([]cand, g.N(60, 600))
+		cands := make([]cand, g.N(44, 600))
 		for k := range cands {
 			r := g.R.Fork()
 			pol := randomPolicy(r)
@@ -1263,7 +1263,7 @@ func (P) Generate(g0 *core.Gen) {
 		wg.Wait()
 		made := 0
 		for _, c := range cands {
-			if c.ok && made < g.N(40, 400) {
+			if c.ok && made < g.N(30, 400) {
 				g.Case("pinned-schedule", c.nt, c.pin)
 				made++
 			}
@@ -1279,7 +1279,7 @@ func (P) Generate(g0 *core.Gen) {
 			g.Case("concurrent-exploration", len(s.defs) >= 3, strings.Replace(s.line(), "C10 run ", "C10 conc ", 1))
 		}
 	}
-	for i := 0; i < g.N(650, 9000); i++ {
+	for i := 0; i < g.N(550, 9000); i++ {
 		r := g.R.Fork()
 		s := newSim(r, randomPolicy(r), int(r.Pick(1, 2, 2, 3)))
 		s.scenario(int(r.Pick(10, 20, 30, 50)), true)
